@@ -99,8 +99,21 @@ impl Check for RigCheck {
 
     fn run(&self, src: &mut Src, ctx: &mut RunCtx) -> RunResult {
         let reg = adapters();
-        let elig = self.eligible();
+        let avx_flavour = std::env::var("VSIM_FLAVOUR").as_deref() == Ok("avx");
+        let elig: Vec<usize> = if avx_flavour && self.prop == "C11" {
+            // Only Hilbert goes through Fir::filter_float (the SIMD kernels).
+            self.eligible().into_iter().filter(|&i| reg[i].name == "Hilbert").collect()
+        } else {
+            self.eligible()
+        };
+        // The first draw is the enumerated-case selector (forced by the engine).
         let which = src.draw(reg.len() as u64 + 1) as usize;
+        if self.prop == "C11" && which >= reg.len() && (src.chance(1, 6) || (avx_flavour && src.coin())) {
+            return kernel_case(src, ctx);
+        }
+        if cfg!(target_feature = "avx") {
+            ctx.count("avx_kernel_build");
+        }
         let ai = if which < reg.len() && elig.contains(&which) {
             which
         } else {
@@ -285,4 +298,84 @@ fn tag_diff(got: &[(u64, String, String)], want: &[(u64, String, String)]) -> St
         extra.push(format!("{}@{}={}", x.1, x.0, x.2));
     }
     format!("missing {missing:?} unexpected {extra:?}")
+}
+
+/// Direct comparison of the dot-product kernels (`Fir::filter` generic,
+/// `Fir::filter_float` which is the AVX / portable-simd kernel when the build
+/// enables one) with f64 arithmetic, and of generated low-pass taps with their
+/// defining properties for the symmetric (Hamming) windows.
+fn kernel_case(src: &mut Src, ctx: &mut RunCtx) -> RunResult {
+    use rustradio::fir::Fir;
+    ctx.nontrivial = true;
+    ctx.count("kernel_cases");
+    if cfg!(target_feature = "avx") {
+        ctx.count("avx_kernel_build");
+    }
+    let nt = match src.below(5) {
+        0 => src.range(1, 9),
+        1 => *src.pick(&[7usize, 8, 9, 15, 16, 17, 31, 32, 33, 64, 65]),
+        _ => src.range(1, 200),
+    };
+    let taps: Vec<f32> = (0..nt).map(|_| (src.below(4001) as f32 - 2000.0) / 1000.0).collect();
+    let extra = src.below(20);
+    let input: Vec<f32> = (0..nt + extra).map(|_| (src.below(8001) as f32 - 4000.0) / 1000.0).collect();
+    for v in &src.log {
+        ctx.hash.add(*v);
+    }
+    if ctx.sample.is_none() {
+        ctx.sample = Some(json!({"kernel": "Fir::filter_float vs Fir::filter vs f64", "ntaps": nt, "avx_build": cfg!(target_feature = "avx")}));
+    }
+    let r = crate::engine::catch(|| {
+        let fir = Fir::new(&taps);
+        (fir.filter(&input), fir.filter_float(&input))
+    });
+    let (g, k) = match r {
+        Ok(x) => x,
+        Err(p) => return ctx.tolerate(Violation::new(format!("C11:kernel-panic:{}", p.site()), format!("Fir kernels panicked with {nt} taps: {} at {}", p.msg, p.loc))),
+    };
+    // y = sum_j taps[j] * x[nt-1-j]
+    let mut y = 0f64;
+    let mut mag = 0f64;
+    for j in 0..nt {
+        let t = taps[j] as f64 * input[nt - 1 - j] as f64;
+        y += t;
+        mag += t.abs();
+    }
+    let b = 64.0 * f32::EPSILON as f64 * mag + 1e-30;
+    if (g as f64 - y).abs() > b {
+        return ctx.tolerate(Violation::new("C11:kernel-generic", format!("Fir::filter with {nt} taps gives {g}, f64 dot product {y} (bound {b:e})")));
+    }
+    if (k as f64 - y).abs() > b {
+        return ctx.tolerate(Violation::new(
+            if cfg!(target_feature = "avx") { "C11:kernel-avx" } else { "C11:kernel-float" },
+            format!("Fir::filter_float with {nt} taps gives {k}, f64 dot product {y}, generic kernel {g} (bound {b:e}; avx build: {})", cfg!(target_feature = "avx")),
+        ));
+    }
+    // Tap design: symmetric, unit DC gain (Hamming windows are symmetric here).
+    if src.chance(1, 4) {
+        let sr = *src.pick(&[8000.0f32, 44100.0, 48000.0, 50000.0]);
+        let cutoff = sr / *src.pick(&[4.0f32, 8.0, 20.0, 45.0]);
+        let tw = sr / *src.pick(&[10.0f32, 50.0, 100.0, 400.0]);
+        let wt = if src.coin() { rustradio::window::WindowType::Hamming } else { rustradio::window::WindowType::HammingParm(0.5) };
+        let t = match crate::engine::catch(|| rustradio::fir::low_pass(sr, cutoff, tw, &wt)) {
+            Ok(t) => t,
+            Err(p) => return ctx.tolerate(Violation::new(format!("C11:low-pass-panic:{}", p.site()), format!("low_pass({sr},{cutoff},{tw}) panicked: {}", p.msg))),
+        };
+        ctx.count("tap_design_checked");
+        let n = t.len();
+        if n % 2 == 0 {
+            return ctx.tolerate(Violation::new("C11:low-pass-even", format!("low_pass({sr},{cutoff},{tw}) returned {n} taps (even): not symmetric about a sample")));
+        }
+        let sum: f64 = t.iter().map(|&x| x as f64).sum();
+        let amax: f64 = t.iter().map(|&x| (x as f64).abs()).sum();
+        if (sum - 1.0).abs() > 1e-4 * amax.max(1.0) {
+            return ctx.tolerate(Violation::new("C11:low-pass-dc-gain", format!("low_pass({sr},{cutoff},{tw}) taps sum to {sum}, expected unit DC gain")));
+        }
+        for i in 0..n / 2 {
+            if (t[i] as f64 - t[n - 1 - i] as f64).abs() > 1e-6 * (1.0 + t[i].abs() as f64) {
+                return ctx.tolerate(Violation::new("C11:low-pass-symmetry", format!("low_pass({sr},{cutoff},{tw}): tap {i} = {} but tap {} = {}", t[i], n - 1 - i, t[n - 1 - i])));
+            }
+        }
+    }
+    Ok(())
 }
